@@ -61,10 +61,9 @@ func runInterop(t *testing.T, c *engine.Check) {
 				(g("helper") == "signed-assertion" && g("opt") != "none") // it takes no options
 		},
 		NewWorker: func(int) func(engine.Vec) engine.Result {
-			r := newRig(true)
 			return func(v engine.Vec) engine.Result {
 				g := func(n string) string { return sp.Get(v, n) }
-				return interopCase(t, r, g)
+				return interopCase(t, newRig(true), g)
 			}
 		},
 	})
